@@ -11,6 +11,7 @@ import (
 	"fmt"
 	"runtime"
 	"strconv"
+	"strings"
 	"sync"
 	"sync/atomic"
 	"time"
@@ -133,7 +134,10 @@ func (w *world) execAfter(r *result, gate func()) {
 	if gate != nil {
 		gate()
 	}
-	r.inv = w.clock.Add(1)
+	inv := w.clock.Add(1)
+	w.mu.Lock()
+	r.inv = inv
+	w.mu.Unlock()
 	if r.meet != nil {
 		r.meet() // wait (bounded) until every call of this round has taken its invocation stamp
 	}
@@ -152,27 +156,68 @@ func (w *world) execAfter(r *result, gate func()) {
 			return g
 		})
 	}
-	r.res = w.clock.Add(1)
+	res := w.clock.Add(1)
 	w.mu.Lock()
+	r.res = res
 	delete(w.cur, id)
 	w.mu.Unlock()
 }
 
-const hangAfter = 3 * time.Second
+const hangAfter = 60 * time.Second // upper bound only; real hangs are recognised much earlier
 
-// execWatched runs one call on a fresh goroutine; a call that has not returned after hangAfter is
-// recorded as hung (its goroutine stays blocked for ever, holding whatever mutexes it holds).
-func (w *world) execWatched(r *result) {
+// blockedOnMutex reports whether goroutine gid is parked in sync.Mutex.Lock.  In a sequential
+// history nobody else is running, so a call parked on a mutex can never be woken: it hangs.
+func blockedOnMutex(gid uint64) bool {
+	buf := make([]byte, 1<<20)
+	n := runtime.Stack(buf, true)
+	hdr := []byte(fmt.Sprintf("goroutine %d [", gid))
+	i := bytes.Index(buf[:n], hdr)
+	if i < 0 {
+		return false
+	}
+	rest := buf[i+len(hdr) : n]
+	j := bytes.IndexByte(rest, ']')
+	if j < 0 {
+		return false
+	}
+	st := string(rest[:j])
+	return strings.HasPrefix(st, "sync.Mutex.Lock") || strings.HasPrefix(st, "semacquire")
+}
+
+// execWatched runs one call on a fresh goroutine and returns what it did; a call found parked on a
+// mutex (twice in a row) is recorded as hung (its goroutine stays blocked for ever, holding
+// whatever mutexes it holds) and a snapshot of its record is returned.
+func (w *world) execWatched(r *result) *result {
 	done := make(chan struct{})
-	go func() { w.exec(r); close(done) }()
-	select {
-	case <-done:
-	case <-time.After(hangAfter):
-		w.mu.Lock()
-		r.hung = true
-		r.runs = append([]runrec(nil), r.runs...)
-		r.res = 1 << 40
-		w.mu.Unlock()
+	gidc := make(chan uint64, 1)
+	go func() { gidc <- goid(); w.exec(r); close(done) }()
+	gid := <-gidc
+	deadline := time.After(hangAfter)
+	strikes := 0
+	for {
+		select {
+		case <-done:
+			return r
+		case <-deadline:
+			strikes = 2
+		case <-time.After(15 * time.Millisecond):
+			if blockedOnMutex(gid) {
+				strikes++
+			} else {
+				strikes = 0
+			}
+		}
+		if strikes >= 2 {
+			select {
+			case <-done:
+				return r
+			default:
+			}
+			w.mu.Lock()
+			cp := &result{o: r.o, runs: append([]runrec(nil), r.runs...), hung: true, inv: r.inv, res: 1 << 40, thread: r.thread}
+			w.mu.Unlock()
+			return cp
+		}
 	}
 }
 
@@ -317,8 +362,7 @@ func runSequential(nfut int, outs map[int]bool, ops []op) []*result {
 		if w.futs[o.f] == nil || (o.kind == kCompose && w.futs[o.g] == nil) {
 			continue
 		}
-		r := &result{o: o}
-		w.execWatched(r)
+		r := w.execWatched(&result{o: o})
 		if r.hung {
 			hangs++
 		}
